@@ -380,17 +380,15 @@ def spec_check(sc, run):
                     last_set.pop(key, None)
             if op[0] == "cmd" and op[2] == "get" and op[3][0] in last_set and st.get("r") != rc.VAL:
                 bad.append((i, "write-then-read", f"{op}: wrote {rc.VAL!r} at step {last_set[op[3][0]]}, read back {show_out(st)}"))
-    # a fully disabled backend is never touched at all, at any depth, also by a transaction commit
+    # a backend that reports itself fully disabled is never touched at all, at any depth, also by a transaction commit
     for i, (op, st) in enumerate(zip(sc["ops"], run["steps"])):
-        if op[0] in ("exit", "enable"):
-            break                       # `always_off` speaks about the part before anything is switched on again
-        if op[0] == "txexit" and sc.get("always_off") is not None:
+        if op[0] == "txexit":
             for e in st.get("commit_log", []):
-                if e["b"] in sc["always_off"] and e["kind"] == "raw":
-                    bad.append((i, "disabled-commit-issued", f"{op}: commit issued {rc.fmt_call(e)} to a backend that was disabled during the whole transaction"))
-        if op[0] == "cmd" and sc.get("always_off") is not None:
-            for e in st["log"]:
-                if e["b"] in sc["always_off"] and e["kind"] == "raw":
+                if e["b"] in st.get("off_whole_tx", []) and e["kind"] == "raw":
+                    bad.append((i, "disabled-commit-issued", f"{op}: commit issued {rc.fmt_call(e)} to a backend that was fully disabled during the whole transaction"))
+        if op[0] == "cmd":
+            for e in st.get("log", []):
+                if e["b"] in st.get("fulloff", []) and e["kind"] == "raw":
                     bad.append((i, f"disabled-{op[2]}-issued", f"{op}: {rc.fmt_call(e)} reached a fully disabled backend (depth {e['depth']})"))
     return bad
 
@@ -468,14 +466,14 @@ def fails(sc) -> bool:
     return bool(s or m)
 
 
-def fails_spec(sc) -> bool:
+def fails_spec(sc, sig=None) -> bool:
     if not valid(sc):
         return False
     try:
         _, s, _ = run_case(sc)
     except HarnessError:
         return False
-    return bool(s)
+    return any(sig is None or x[1] == sig for x in s)
 
 
 def shrink(sc, pred):
@@ -504,9 +502,10 @@ def shrink(sc, pred):
 def report(chk: Check, sc, origin):
     run, s, m = run_case(sc)
     if s:
-        small = shrink(sc, fails_spec)
+        sig0 = s[0][1]
+        small = shrink(sc, lambda x: fails_spec(x, sig0))
         run, s2, m2 = run_case(small)
-        s2 = s2 or s
+        s2 = [x for x in s2 if x[1] == sig0] + [x for x in s2 if x[1] != sig0] or s
         i, sig, text = s2[0]
         chk.violation(f"the implementation contradicts C17 at step {i}: {text}",
                       {"scenario": small, "spec_failures": [t for _, _, t in s2][:6], "model_diffs": [t for _, t in m2][:6],
@@ -606,11 +605,7 @@ def gen_disable_sweep(prefixes, disabled, target, rng, order):
         ops = [["txenter", 0, mode], ["enter", 0, target, disabled]] + body + [["exit", 0], ["txexit", 0]]
     else:
         ops = [["disable", 0, target, disabled]] + body
-    sc = {"regs": regs, "ops": ops, "kind": "disable_" + order}
-    if disabled == [] and order in ("outside", "tx_in_disabling", "plain"):
-        off = longest(regs, target)
-        sc["always_off"] = [off] if off is not None else []
-    return sc
+    return {"regs": regs, "ops": ops, "kind": "disable_" + order}
 
 
 CTL_CMDS = ["get", "set", "get_many", "scan", "delete", "get_keys_count", "incr"]
@@ -768,7 +763,7 @@ def generate(chk: Check):
     # (A) routing: every prefix set of size <= 4 (exhaustive), every key of the alphabet + extensions
     for s in sets:
         cases.append(("routing", gen_routing(s, alphabet, rng)))
-    wr_sets = sets if chk.thorough else rng.sample(sets, 60)
+    wr_sets = sets if chk.thorough else rng.sample(sets, 120)
     for s in wr_sets:
         if s:
             cases.append(("write_read", gen_write_read(s, alphabet, rng)))
@@ -782,7 +777,7 @@ def generate(chk: Check):
     cmds = rc._commands()
     subsets = [[]] + [[c] for c in cmds]
     pairs = [list(p) for p in itertools.combinations(cmds, 2)]
-    subsets += pairs if chk.thorough else rng.sample(pairs, 40)
+    subsets += pairs if chk.thorough else rng.sample(pairs, 80)
     tables = [[""], ["", "a"], ["a", "b"], ["", "a", "ab"]]
     orders = ["outside", "tx_in_disabling", "disabling_in_tx", "plain"]
     for j, sub in enumerate(subsets):
@@ -791,11 +786,11 @@ def generate(chk: Check):
             target = rng.choice(t + [t[-1] + "k"])
             cases.append(("disable_sweep", gen_disable_sweep(t, sub, target, rng, order)))
     # (C) tasks
-    for _ in range(chk.budget(150, 3000)):
+    for _ in range(chk.budget(400, 6000)):
         t = rng.choice(tables + [["", "a:", "ab:c", "b"]])
         cases.append(("tasks", gen_tasks(rng, t)))
     # (D) decorators
-    for _ in range(chk.budget(3, 30)):
+    for _ in range(chk.budget(6, 40)):
         for state in ["full", "full_then_child_enables", "get_off", "one_prefix_off", "none"]:
             t = rng.choice(tables)
             cases.append(("decorators", gen_decorators(rng, t, state)))
@@ -853,7 +848,7 @@ def run(chk: Check) -> int:
         "rule": "scenario = registered prefix table + operations (control ops in real asyncio tasks, public commands in/outside "
                 "cache.transaction(), decorated calls). Enumerated: every prefix set of size <= 4 over the tier's alphabet x every "
                 "key of alphabet+extensions (single-key reads, get_many over interleaved backends, writes); every single disabled "
-                "command and 'all' in four nestings with a transaction, pairs of disabled commands (all pairs in thorough, 40 sampled "
+                "command and 'all' in four nestings with a transaction, pairs of disabled commands (all pairs in thorough, 80 sampled "
                 "in quick) x every public command; sampled from VERIF_SEED: task nestings, 5-6 prefix tables, re-registration, "
                 "decorators. A scenario is non-trivial iff it reached at least one interesting state (see interesting_states_cases); "
                 "distinct = distinct (table, op list)",
